@@ -316,6 +316,16 @@ class DateTime(datetime.datetime, Date):
             self.hour, self.minute, self.second, self.microsecond, fold=self.fold
         )
 
+    def timetz(self) -> Time:
+        return Time(
+            self.hour,
+            self.minute,
+            self.second,
+            self.microsecond,
+            tzinfo=self.tzinfo,
+            fold=self.fold,
+        )
+
     def naive(self) -> Self:
         """
         Return the DateTime without timezone information.
